@@ -54,6 +54,14 @@ CHECKS = {
             'model==0 with data>0 (documented as ignored with a warning) is outside the space; spectra follow the corner-masked convention; '
             'tolerance 1e-11 relative to the magnitude of the terms.',
             'DESIGN.md §3 C11'),
+    'C14': ('model_checking',
+            'exhaustive enumeration of a format lattice (shape x position x value alphabet x precision x gz; masks x labels x comments x format flags x folding; memory layouts; pickle protocols) with real write+read round trips',
+            'Every member of the lattice is written with the real writer and read back with the real reader (and the cross pairs: generic array '
+            'writer <-> Spectrum reader, pre-1.3 format), then compared field by field: shape, values bitwise after formatting at the written '
+            'precision (incl. -0.0, denormals, nan, +-inf), mask, folded flag, labels, comments; pickle protocols 2-5, copy and deepcopy likewise; '
+            'non-contiguous views (reorder_pops transposes, Fortran order, strided and reversed slices) are included.',
+            'Labels without double quotes/newlines, comments without newlines (not representable in the format); scratch files under /verif/.scratch.',
+            'DESIGN.md §3 C14'),
 }
 
 NOT_YET = {}
